@@ -23,4 +23,12 @@ def handlePrio : List String → Option String
     pure (if q.isEmpty then "." else ",".intercalate (q.map fun t => s!"{hex t.binary}/{hex t.name}"))
   | _ => none
 
+/-- `threads <value> <ncpu>` → the computed count or `err` -/
+def handleThreads : List String → Option String
+  | [v, n] => do
+    let n ← n.toNat?
+    let v ← v.toInt?
+    pure (match threadCount n v with | some k => toString k | none => "err")
+  | _ => none
+
 end Driver
